@@ -348,11 +348,12 @@ def monC10 (h : Hist) : Option String :=
         if faulted && x.res.kind == "resp" && !Spec.hasDirective Spec.rfc ri.req.header (str% "only-if-cached") then
           let readFault := (h.stores ri.n "fg").any fun s => s.op == "get" &&
             (s.result == "err" || (match s.val with | .raw _ => true | .ent _ false => true | _ => false))
-          -- a truncated entry of a reply whose framing told its length (Content-Length, chunked) is detectable
+          -- a truncated entry is detectable whatever the framing of the reply was (Content-Length, chunked, or
+          -- delimited by the end of the connection: the cache knows how many bytes it read)
           let truncated := h.faults.any fun f => f.n = ri.n && f.stream == "fg" && f.kind == "trunc"
           let shortBody := match x.token with
             | some (m, k) => (match h.reply m k, h.frame m k with
-              | some rp, some (fr, _) => m ≠ ri.n && fr != "close" && rp.bodyFail < 0 && !x.res.bodyErr && x.res.body ≠ rp.resp.body
+              | some rp, some (fr, _) => m ≠ ri.n && !fr.isEmpty && rp.bodyFail < 0 && !x.res.bodyErr && x.res.body ≠ rp.resp.body
               | _, _ => false)
             | none => false
           if readFault && x.fromStore && x.fgCalls.isEmpty then
